@@ -11,6 +11,7 @@ From Coq Require Import Init.Byte.
 
 Definition B (l : list Byte.byte) : bytes := map Byte.to_N l.
 Definition o (h l : Byte.byte) : nat := N.to_nat (Byte.to_N h * 256 + Byte.to_N l).
+Definition zo (h l : Byte.byte) : Z := Z.of_nat (o h l).
 Definition L (a1 a2 b1 b2 c1 c2 : Byte.byte) : line := Line (o a1 a2) (o b1 b2) (o c1 c2).
 Definition P (l : list Byte.byte) : list nat := map (fun b => N.to_nat (Byte.to_N b)) l.
 
@@ -65,8 +66,8 @@ Fixpoint bstruct_eqb (a b : bstruct) {struct a} : bool :=
        | x :: r1, y :: r2 => bstruct_eqb x y && go r1 r2
        | _, _ => false
        end) xs ys
-  | BsMsg n l s, BsMsg n' l' s' => Nat.eqb n n' && Nat.eqb l l' && bstruct_eqb s s'
-  | BsText n l, BsText n' l' => Nat.eqb n n' && Nat.eqb l l'
+  | BsMsg n l s, BsMsg n' l' s' => Nat.eqb n n' && Z.eqb l l' && bstruct_eqb s s'
+  | BsText n l, BsText n' l' => Nat.eqb n n' && Z.eqb l l'
   | BsOther n, BsOther n' => Nat.eqb n n'
   | _, _ => false
   end.
